@@ -525,3 +525,56 @@ Proof.
   - intros l' E. apply graph_wf in E. tauto.
   - apply descendants_norm.
 Qed.
+
+(* ---- pools of live graphs ------------------------------------------------------------ *)
+Lemma wf_empty : wf empty_nl.
+Proof.
+  split; [constructor|]. split; [intros e He; destruct He | intros r Hr; destruct Hr].
+Qed.
+
+Lemma Forall_nth_wf p n : Forall wf p -> wf (nth n p empty_nl).
+Proof.
+  intros H. revert n. induction H as [|x r Hx Hr IH]; intros [|n]; simpl; try exact wf_empty; [exact Hx|apply IH].
+Qed.
+
+Lemma Forall_set_nth {A} (P : A -> Prop) n x l : Forall P l -> P x -> Forall P (set_nth n x l).
+Proof.
+  intros H Hx. revert n. induction H as [|y r Hy Hr IH]; intros n; simpl; [destruct n; constructor|].
+  destruct n as [|n]; constructor; try assumption. apply IH.
+Qed.
+
+(* an operation whose list argument comes from the pool needs nothing of that argument
+   beyond what the pool already guarantees; its other arguments (the depth bound) are as before *)
+Definition pop_wf (po : pop) : Prop :=
+  match po_arg po with
+  | Some _ => forall l2, wf l2 -> op_args_wf (with_arg (po_op po) l2)
+  | None => op_args_wf (po_op po)
+  end.
+
+Theorem pool_step_wf p po : Forall wf p -> pop_wf po -> Forall wf (pool_step p po).
+Proof.
+  intros Hp Ho. unfold pool_step. apply Forall_set_nth; [exact Hp|].
+  apply step_wf; [apply Forall_nth_wf; exact Hp|].
+  unfold pool_op, pop_wf in *. destruct (po_arg po) as [a|]; [|exact Ho].
+  apply Ho. apply Forall_nth_wf. exact Hp.
+Qed.
+
+Theorem pool_ops_preserve_wf pops : forall p, Forall wf p -> Forall pop_wf pops -> Forall wf (fold_left pool_step pops p).
+Proof.
+  induction pops as [|o r IH]; intros p Hp Ho; simpl; [assumption|].
+  inversion Ho as [|? ? Ho1 Ho2]; subst. apply IH; [|assumption]. apply pool_step_wf; assumption.
+Qed.
+
+(* the frame: a step leaves every slot other than its destination exactly as it was *)
+Lemma nth_set_nth_other {A} (d : A) n m x l : n <> m -> nth m (set_nth n x l) d = nth m l d.
+Proof.
+  revert n m. induction l as [|y r IH]; intros n m Hnm; [destruct n; reflexivity|].
+  destruct n as [|n]; destruct m as [|m]; simpl; try reflexivity; try congruence.
+  apply IH. congruence.
+Qed.
+
+Theorem pool_step_frame p po j : j <> po_dst po -> nth j (pool_step p po) empty_nl = nth j p empty_nl.
+Proof. intros H. unfold pool_step. apply nth_set_nth_other. congruence. Qed.
+
+Lemma set_nth_length {A} n (x : A) l : length (set_nth n x l) = length l.
+Proof. revert n. induction l as [|y r IH]; intros [|n]; simpl; try reflexivity. f_equal. apply IH. Qed.
